@@ -421,3 +421,125 @@ fn std_splitn_model_utf8() {
         k += 1;
     }
 }
+
+// ---- prelude R13: the split model at the arity ppp uses (bounded: n = 7, strings of at most 8 bytes
+//      over {' ', '\r', 'a'}: every shape from no separator to eight separators) ---------------------------
+const SPLIT7_N: usize = 8;
+fn splitn_model16(s: &[u8], n: usize, out: &mut [(usize, usize); 16]) -> usize {
+    let mut count = 0;
+    let mut start = 0;
+    let mut left = n;
+    while left > 0 {
+        if left == 1 {
+            out[count] = (start, s.len());
+            return count + 1;
+        }
+        let mut i = start;
+        while i < s.len() && !(s[i] == b' ' || s[i] == b'\r') {
+            i += 1;
+        }
+        if i >= s.len() {
+            out[count] = (start, s.len());
+            return count + 1;
+        }
+        out[count] = (start, i);
+        count += 1;
+        start = i + 1;
+        left -= 1;
+    }
+    count
+}
+
+#[kani::proof]
+#[kani::unwind(12)]
+fn std_splitn_model_n7() {
+    let len: usize = kani::any();
+    kani::assume(len <= SPLIT7_N);
+    let mut buf = [b'a'; SPLIT7_N];
+    let mut i = 0;
+    while i < SPLIT7_N {
+        let k: u8 = kani::any();
+        kani::assume(k < 3);
+        buf[i] = [b' ', b'\r', b'a'][k as usize];
+        i += 1;
+    }
+    let s = std::str::from_utf8(&buf[..len]).unwrap();
+    let mut model = [(0usize, 0usize); 16];
+    let m = splitn_model16(s.as_bytes(), 7, &mut model);
+    let mut it = s.splitn(7, |c| c == ' ' || c == '\r').peekable();
+    let mut k = 0;
+    while k < 8 {
+        let peeked_none = it.peek().is_none();
+        match it.next() {
+            None => {
+                assert!(peeked_none);
+                assert!(k == m);
+                break;
+            }
+            Some(piece) => {
+                assert!(!peeked_none);
+                assert!(k < m);
+                let (a, b) = model[k];
+                assert!(piece.as_bytes() == &s.as_bytes()[a..b]);
+            }
+        }
+        k += 1;
+    }
+    assert!(m <= 7);
+}
+
+// ---- prelude: std's IPv4 text parser accepts only digits and '.' (axiom_ipv4_text_no_sep) -----------
+//      (bounded: strings of exactly 7 bytes over {'1', '0', '.', ' ', '\r', '+', 'a', ':'}: the shortest
+//      texts that can be accepted at all, with every separator / sign / letter in every position)
+#[kani::proof]
+#[kani::unwind(10)]
+fn std_ipv4_text_alphabet() {
+    let mut buf = [b'1'; 7];
+    let mut i = 0;
+    while i < 7 {
+        let k: u8 = kani::any();
+        kani::assume(k < 8);
+        buf[i] = [b'1', b'0', b'.', b' ', b'\r', b'+', b'a', b':'][k as usize];
+        i += 1;
+    }
+    let s = std::str::from_utf8(&buf[..]).unwrap();
+    if let Ok(a) = s.parse::<Ipv4Addr>() {
+        kani::cover!(true, "some 7-byte text is accepted");
+        let mut j = 0;
+        while j < 7 {
+            assert!(buf[j] == b'.' || buf[j].is_ascii_digit());
+            j += 1;
+        }
+        // dotted quad of single digits: the only accepted shape at this length
+        assert!(buf[1] == b'.' && buf[3] == b'.' && buf[5] == b'.');
+        assert!(a.octets() == [buf[0] - b'0', buf[2] - b'0', buf[4] - b'0', buf[6] - b'0']);
+    }
+}
+
+// ---- prelude: std's IPv6 text parser accepts only hex digits, ':' and '.' (axiom_ipv6_text_no_sep) ---
+//      (bounded: strings of at most 5 bytes over {'1', 'a', 'F', ':', '.', ' ', '\r', '+', 'g', '%'})
+#[kani::proof]
+#[kani::unwind(12)]
+fn std_ipv6_text_alphabet() {
+    let len: usize = kani::any();
+    kani::assume(len <= 5);
+    let mut buf = [b':'; 5];
+    let mut i = 0;
+    while i < 5 {
+        let k: u8 = kani::any();
+        kani::assume(k < 10);
+        buf[i] = [b'1', b'a', b'F', b':', b'.', b' ', b'\r', b'+', b'g', b'%'][k as usize];
+        i += 1;
+    }
+    let s = std::str::from_utf8(&buf[..len]).unwrap();
+    if s.parse::<Ipv6Addr>().is_ok() {
+        kani::cover!(true, "some short text is accepted");
+        let mut j = 0;
+        while j < 5 {
+            if j < len {
+                assert!(buf[j] == b':' || buf[j] == b'.' || buf[j].is_ascii_hexdigit());
+            }
+            j += 1;
+        }
+    }
+}
